@@ -782,3 +782,44 @@ func CloneTV(t *TV) *TV {
 }
 
 var bg = context.Background()
+
+// TVSxFull renders a value with object types written out (no interning), for comparisons across runs.
+func (tt *TypeTable) TVSxFull(t *TV) *spec.Sx {
+	switch t.K {
+	case "lv":
+		var body *spec.Sx
+		if t.NilC {
+			body = spec.A("nil")
+		} else {
+			body = spec.L()
+			for _, e := range t.Elems {
+				body.Add(tt.TVSxFull(e))
+			}
+		}
+		return spec.L(spec.A("lv"), tt.tySxFull(t.Ty), spec.B(t.Null), spec.B(t.Unknown), body)
+	case "mv", "ov":
+		var body *spec.Sx
+		if t.NilC {
+			body = spec.A("nil")
+		} else {
+			body = spec.L()
+			for i, e := range t.Elems {
+				body.Add(spec.L(spec.Q(t.Keys[i]), tt.TVSxFull(e)))
+			}
+		}
+		return spec.L(spec.A(t.K), tt.tySxFull(t.Ty), spec.B(t.Null), spec.B(t.Unknown), body)
+	case "hv":
+		f, ty, cur := spec.A("none"), spec.A("none"), spec.A("absent")
+		if t.HField != nil {
+			f = GVSx(t.HField)
+		}
+		if t.HType != nil {
+			ty = tt.tySxFull(t.HType)
+		}
+		if t.HCur != nil {
+			cur = tt.TVSxFull(t.HCur)
+		}
+		return spec.L(spec.A("hv"), spec.Q(t.Suffix), spec.B(t.HFromTF), spec.B(t.Null), spec.B(t.Unknown), f, ty, cur)
+	}
+	return tt.TVSx(t)
+}
